@@ -369,9 +369,12 @@ func (x *X) assign(f *Frame, st *State, l ast.Expr, v Value) {
 		}
 		path := sel.Index()
 		base := x.expr(f, st, n.X)
-		// walk all but last
 		if len(path) > 1 {
-			base = x.walkFieldPath(st, base, path[:len(path)-1], n.Pos())
+			// promoted field: rebuild the enclosing values (or store through the innermost pointer)
+			if nv, changed := x.setPath(st, base, path, v, n.Pos()); changed {
+				x.assign(f, st, n.X, nv)
+			}
+			return
 		}
 		last := path[len(path)-1]
 		if pt, ok := base.T.Underlying().(*types.Pointer); ok {
@@ -436,6 +439,38 @@ func (x *X) assign(f *Frame, st *State, l ast.Expr, v Value) {
 	default:
 		fail("unsupported assignment target %T at %s", l, x.pos(l.Pos()))
 	}
+}
+
+// setPath writes v into the field reached from cur by the field-index path. When cur is a
+// pointer the write goes to the heap and cur is returned unchanged (changed == false); when cur
+// is a struct value the updated value is returned (changed == true) for the caller to store.
+func (x *X) setPath(st *State, cur Value, path []int, v Value, pos token.Pos) (Value, bool) {
+	if pt, ok := cur.T.Underlying().(*types.Pointer); ok {
+		su := pt.Elem().Underlying().(*types.Struct)
+		fld := su.Field(path[0])
+		lo, _, ft, _ := fieldRange(pt.Elem(), fld.Name())
+		x.panicCheck(st, "nil", Not(Eq(cur.S(), BVInt(0, 64))), pos, "nil dereference (assign field "+fld.Name()+")")
+		if len(path) == 1 {
+			x.c.storePtrRange(st, pt.Elem(), cur.S(), lo, x.assignConv(st, x.typed(v, ft), ft))
+			return cur, false
+		}
+		fv := x.walkFieldPath(st, cur, path[:1], pos)
+		if nv, changed := x.setPath(st, fv, path[1:], v, pos); changed {
+			x.c.storePtrRange(st, pt.Elem(), cur.S(), lo, nv)
+		}
+		return cur, false
+	}
+	su := cur.T.Underlying().(*types.Struct)
+	fld := su.Field(path[0])
+	_, _, ft, _ := fieldRange(cur.T, fld.Name())
+	if len(path) == 1 {
+		return withField(cur, fld.Name(), x.assignConv(st, x.typed(v, ft), ft)), true
+	}
+	fv := x.walkFieldPath(st, cur, path[:1], pos)
+	if nv, changed := x.setPath(st, fv, path[1:], v, pos); changed {
+		return withField(cur, fld.Name(), nv), true
+	}
+	return cur, false
 }
 
 func (x *X) cond(f *Frame, st *State, e ast.Expr) *Term {
